@@ -23,6 +23,8 @@ ORACLE_KLASS = [
 
 def oracle(case, iline):
     """Property C01 on ONE implementation output line -> list of (klass, text)."""
+    if iline.startswith("HANG"):
+        return [("hang", "the implementation did not finish this case within the per-case time limit: " + iline[:200])]
     if iline.startswith("CRASH"):
         return [("crash", "sanitizer report / abort while peers were sending blocks: " + iline[:300])]
     if iline.startswith("ERR:internal"):
@@ -72,6 +74,7 @@ def run(rep, tier, seed, replay):
                        "choke_queue, timers; WHICH peers a verdict blames (mark_failed_peers / mark_and_disconnect_if_single_peer) is not modelled: "
                        "receive_corrupt_chunk calls are events reconstructed from the observed PeerInfo::failed_counter, their effect "
                        "(count, erase the connection above max_failed, refuse the peer afterwards) is modelled and compared",
+                       "gen/params_c01.py: block size and max_failed read from the compiled headers by a constexpr probe (regex only as fallback)",
                        "property oracle evaluated in harness/c01.cc on the implementation after every stimulus and inside the "
                        "chunk-done slot; classification in props/c01.py"]))
     impl = ltv.build_harness("c01", ["c01.cc", "common/session.cc"])
@@ -144,7 +147,8 @@ def run(rep, tier, seed, replay):
     rep.cov.update(evaluations=len(cases), distinct_nontrivial=len(nontrivial),
                    rule="cases = corpus + hand list (dissimilar / leader change / leader disconnect / all-corrupt / max_failed / "
                         "malformed / unrequested / choke / out of order / crafted data whose SHA-1 agrees with the recorded one up to an early NUL byte / "
-                        "stale longer files already in the download directory) + dissimilar position sweep + random scripts over 8 layouts, "
+                        "stale longer files already in the download directory / a sparse single file > 4 GiB with pieces beyond offset 2^32, re-read from "
+                        "the file at the 64-bit offset) + dissimilar position sweep + random scripts over 8 layouts, "
                         "1..4 peers, 8 read segmentations; non-trivial = distinct case in which a block was written and at least one "
                         "hash verdict was delivered",
                    samples=samples, input_distribution=stats, mismatches=rejected, exhaustive=False)
